@@ -63,6 +63,7 @@ func (c *ContextCond) Wait(ctx context.Context) error {
 	ch := c.ch
 	c.m.RUnlock()
 	c.L.Unlock()
+	verifHook("cond.wait.unlocked")
 	select {
 	case <-ctx.Done():
 		return ctx.Err()
@@ -100,6 +101,7 @@ func (g *Group) spawn(f func()) {
 		g.m.RUnlock()
 		return
 	}
+	verifHook("group.spawn.checked")
 	g.wg.Add(1)
 	g.m.RUnlock()
 
